@@ -37,6 +37,7 @@ func startMini(maxChunk, maxRec int64) (ms *miniServer, err error) {
 	cfg.JrnlCtrlConfig.MaxChunkSize = maxChunk
 	cfg.JrnlCtrlConfig.MaxRecordSize = maxRec
 	cfg.JrnlCtrlConfig.WriteFlushMs = 5
+	cfg.JrnlCtrlConfig.WriteIdleSec = 1 // idle chunk writers return their file descriptors quickly
 	cfg.JrnlCtrlConfig.JournalsDir = path.Join(cfg.BaseDir, "db")
 	ctx, cancel := context.WithCancel(context.Background())
 	ms.cancel = cancel
